@@ -1,7 +1,7 @@
 //! Driving the repository's writers/readers per container format, plus the independent decode.
 
 use crate::codec;
-use crate::memsource::{MemSource, TileMap};
+use crate::memsource::TileMap;
 use crate::par::catch;
 use std::path::{Path, PathBuf};
 use versatiles_container::*;
@@ -134,7 +134,7 @@ pub fn ext(c: Cont) -> &'static str {
 }
 
 /// Writes `src` with the repository's writer for `c`. Panics are caught and reported as Err("PANIC ...").
-pub fn write(rt: &tokio::runtime::Runtime, c: Cont, src: &mut MemSource, work: &Path, name: &str) -> Result<Written, String> {
+pub fn write(rt: &tokio::runtime::Runtime, c: Cont, src: &mut dyn TilesReaderTrait, work: &Path, name: &str) -> Result<Written, String> {
 	let path = work.join(format!("{name}.{}", ext(c)));
 	if c == Cont::Mbtiles {
 		mbtiles_pool_token();
